@@ -137,4 +137,4 @@ def check(ctx):
             if rule in ("R15.1", "R15.2", "R15.3") and ("atomic_move" in key or "full_sync_move" in key or "ogre_array_pool_allocator" in key): return super().ob(rule, key, ok, site, detail, nontrivial, undecided)
             return ok
     C02.check(Ring(ctx, "R13.4")); C15.check(Ring(ctx, "R13.4"))
-    ctx.floor("R13.4", 30)
+    ctx.floor("R13.4", 30 if ctx.config == "lib" else 20)
